@@ -80,6 +80,9 @@ func nestedStore(h T, idx []T, v T) T {
 }
 
 func (s *Session) load(st *State, loc *Loc) Val {
+	if loc.Kind == "G" && s.eng.db.ConstGlobals[loc.TypeKey] == "zero" && loc.Path == "" {
+		return zeroVal(loc.Typ)
+	}
 	names, sorts, leaves := locHeaps(loc)
 	v := Val{Typ: loc.Typ}
 	idx := append([]T{loc.Ref}, loc.Idx...)
@@ -391,6 +394,12 @@ func (s *Session) refFacts(st *State, v Val) T {
 		}
 		if isRef {
 			fs = append(fs, Le(v.L[i], st.Top))
+		}
+		if !strings.Contains(l.Path, "#") {
+			if _, isIface := l.Typ.Underlying().(*types.Interface); isIface {
+				x := v.L[i]
+				fs = append(fs, Imp(s.uf("isreftag", SBool, s.uf("typeof", SInt, x)), Le(s.uf("payload", SInt, x), st.Top)))
+			}
 		}
 	}
 	return And(fs...)
